@@ -271,6 +271,12 @@ func (p *c09) plant(r *lib.Rand, g *gen.SpecGen, doc map[string]any, leafKind st
 		if fmtLeaf == "obj" {
 			fmtLeaf, pl.leafKind = "int", "int"
 		}
+		if fmtLeaf == "int" && r.P(0.5) {
+			// simple-schema locations: half of the integer leaves become a leaf whose rejected / accepted value is the
+			// zero value of its kind (0, "", false): these validators have value-dependent early exits
+			fmtLeaf = []string{"zint", "zstr", "zbool", "estr"}[r.Intn(4)]
+			pl.leafKind = fmtLeaf
+		}
 		if forExample {
 			// examples are not allowed on simple parameters by the Swagger schema: use the response example instead
 			resp200["schema"] = map[string]any{"type": "object", "properties": map[string]any{"v": newLeaf(fmtLeaf)}}
@@ -331,6 +337,12 @@ func (p *c09) plant(r *lib.Rand, g *gen.SpecGen, doc map[string]any, leafKind st
 		// response header, possibly through nested items
 		if fmtLeaf == "obj" {
 			fmtLeaf, pl.leafKind = "int", "int"
+		}
+		if fmtLeaf == "int" && r.P(0.5) {
+			// simple-schema locations: half of the integer leaves become a leaf whose rejected / accepted value is the
+			// zero value of its kind (0, "", false): these validators have value-dependent early exits
+			fmtLeaf = []string{"zint", "zstr", "zbool", "estr"}[r.Intn(4)]
+			pl.leafKind = fmtLeaf
 		}
 		if forExample {
 			resp200["schema"] = map[string]any{"type": "array", "items": newLeaf(fmtLeaf)}
